@@ -22,6 +22,9 @@ import (
 var c20Content map[string][]byte
 var c20Handles map[*os.File]string
 var c20OpenCount int
+var c20FailWritesFrom = -1 // index of the first (*os.File).Write call that fails (-1: never)
+var c20WriteCalls int
+var c20WriteFailed bool
 
 func c20OpenFile(name string, flag int, perm os.FileMode) (*os.File, error) {
 	f := &os.File{}
@@ -36,6 +39,12 @@ func c20OpenFile(name string, flag int, perm os.FileMode) (*os.File, error) {
 }
 
 func c20Write(f *os.File, p []byte) (int, error) {
+	me := c20WriteCalls
+	c20WriteCalls++
+	if c20FailWritesFrom >= 0 && me >= c20FailWritesFrom {
+		c20WriteFailed = true
+		return 0, os.ErrInvalid // stands for ENOSPC / EPIPE
+	}
 	name := c20Handles[f]
 	c20Content[name] = append(c20Content[name], p...)
 	return len(p), nil
@@ -91,6 +100,7 @@ func c20Run(format string, doAppend bool, tag string) {
 	c20Content = map[string][]byte{}
 	c20Handles = map[*os.File]string{}
 	c20OpenCount = 0
+	c20FailWritesFrom, c20WriteCalls, c20WriteFailed = -1, 0, false
 	names := []string{"t0", "t1", "t2"}
 	h := 4
 	if verifTier() > 0 {
@@ -99,9 +109,15 @@ func c20Run(format string, doAppend bool, tag string) {
 	if c20Fixed != nil {
 		h = len(c20Fixed)
 	}
+	// any of the targets may exist beforehand with old content (symbolic per target): overwrite
+	// mode must replace it, append mode must keep it in front
 	pre := []byte("old\n")
-	if doAppend {
-		c20Content["t0"] = append([]byte{}, pre...)
+	preExists := []bool{false, false, false}
+	for t := range names {
+		if c20Fixed == nil && verifChoice("target_exists_beforehand", 2) == 1 {
+			preExists[t] = true
+			c20Content[names[t]] = append([]byte{}, pre...)
+		}
 	}
 	mgr := NewFileOutputHandlerManager(c20Options(format), doAppend)
 	ctx := types.NewContext()
@@ -141,13 +157,15 @@ func c20Run(format string, doAppend bool, tag string) {
 	for t := range names {
 		got := c20Content[names[t]]
 		if len(routed[t]) == 0 {
-			if !(doAppend && t == 0) {
+			if preExists[t] {
+				verifAssert(bytes.Equal(got, pre), "C20/"+tag+"/untargeted-file-untouched")
+			} else {
 				verifAssert(len(got) == 0, "C20/"+tag+"/untargeted-file-untouched")
 			}
 			continue
 		}
 		want := c20Render(format, routed[t])
-		if doAppend && t == 0 {
+		if doAppend && preExists[t] {
 			want = append(append([]byte{}, pre...), want...)
 		}
 		if stateful && reopened[t] && c20Fixed == nil && verifKnown("C20-reopen-after-eviction") {
@@ -181,4 +199,38 @@ func VerifC20_known_reopen_after_eviction() {
 	c20Fixed = []int{0, 1, 2, 0}
 	c20Run("csv", false, "csv")
 	c20Fixed = nil
+}
+
+// A write to a target that fails (disk full, broken pipe — here: every (*os.File).Write from a
+// symbolic call on) must be reported by WriteRecordAndContext or by Close: a target silently
+// missing records it was routed is not "exactly the records routed to it".
+//verif:opts engine-only maxpaths=100000
+func VerifC20_write_failure_is_reported() {
+	verifReplace("os.OpenFile", c20OpenFile)
+	verifReplace("(*os.File).Write", c20Write)
+	verifReplace("(*os.File).Close", c20Close)
+	c20Content = map[string][]byte{}
+	c20Handles = map[*os.File]string{}
+	c20OpenCount, c20WriteCalls, c20WriteFailed = 0, 0, false
+	c20FailWritesFrom = verifChoice("fail_writes_from", 4)
+	names := []string{"t0", "t1", "t2"}
+	mgr := NewFileOutputHandlerManager(c20Options("dkvp"), false)
+	ctx := types.NewContext()
+	reported := false
+	for i := 0; i < 4; i++ {
+		t := verifChoice("target", 3)
+		if mgr.WriteRecordAndContext(types.NewRecordAndContext(c20Record(i), ctx), names[t]) != nil {
+			reported = true
+		}
+	}
+	if len(mgr.Close()) > 0 {
+		reported = true
+	}
+	if c20WriteFailed {
+		verifAssert(reported, "C20/failure/failed-write-to-a-target-is-reported")
+	} else {
+		verifAssert(!reported, "C20/failure/no-spurious-error")
+	}
+	c20FailWritesFrom = -1
+	verifReach("C20/failure/end")
 }
